@@ -12,7 +12,11 @@ package main
 //   stall=flip:<ms>    directed schedule: when a rotation marks the log as rotating while a
 //                      writer sits between Append's two status checks, the rotating goroutine is
 //                      delayed by <ms> (a legal schedule: the OS may preempt it there);
-//   stall=every:n:ms   every n-th rotation is delayed by <ms> right after marking the log.
+//   stall=every:n:ms   every n-th rotation is delayed by <ms> right after marking the log
+//                      (writers run out of attempts: ErrWALRotating);
+//   stall=closed       a writer that has loaded the log pointer (site mgr.*.wal_loaded) and sees a
+//                      rotation start waits until that rotation has closed the old log: its Append
+//                      meets a closed log (ErrWALClosed, not retried).
 // Lines: t <tid> put <key> <val> | t <tid> del <key> | t <tid> get <key>   (per thread in order)
 //        g <directive> ...   gate script run by one extra goroutine (see runGate)
 // Output: H <tid> <kind> <key> <val|-> <result> <call> <ret>   (the history; read by the
@@ -123,7 +127,9 @@ func (r *c06Run) doOp(tid int, l []string, rec *[]*hop) {
 }
 
 type stallCfg struct {
-	mode  string // none flip every
+	mode   string // none flip every closed
+	marked atomic.Int64
+	closed atomic.Int64
 	n     int
 	ms    int
 	count atomic.Int64
@@ -140,6 +146,7 @@ func parseStall(s string) *stallCfg {
 	case "every":
 		sc.n, _ = strconv.Atoi(p[1])
 		sc.ms, _ = strconv.Atoi(p[2])
+	case "closed":
 	default:
 		sc.mode = "none"
 	}
@@ -160,7 +167,27 @@ func (sc *stallCfg) install() {
 				time.Sleep(150 * time.Microsecond)
 				sc.inWin.Add(-1)
 			}
+		case "mgr.put.wal_loaded", "mgr.delete.wal_loaded":
+			if sc.mode == "closed" {
+				m0, c0 := sc.marked.Load(), sc.closed.Load()
+				t0 := time.Now()
+				for time.Since(t0) < 150*time.Microsecond && sc.marked.Load() == m0 {
+					time.Sleep(10 * time.Microsecond)
+				}
+				if sc.marked.Load() != m0 {
+					// a rotation of the log we hold has begun: let it run to the end
+					for time.Since(t0) < 100*time.Millisecond && sc.closed.Load() == c0 {
+						time.Sleep(20 * time.Microsecond)
+					}
+					if sc.closed.Load() != c0 {
+						sc.fired.Add(1)
+					}
+				}
+			}
+		case "rotate.closed":
+			sc.closed.Add(1)
 		case "rotate.marked":
+			sc.marked.Add(1)
 			if sc.mode == "flip" && sc.inWin.Load() > 0 {
 				sc.fired.Add(1)
 				time.Sleep(time.Duration(sc.ms) * time.Millisecond)
@@ -736,11 +763,13 @@ func genC06(w *bufio.Writer, seed int64, n int, tier string) {
 		}
 		memsize := []int{64, 96, 160, 256, 512}[r.Intn(5)]
 		stall := "none"
-		switch pick(r, 6, 3, 2) {
+		switch pick(r, 5, 2, 2, 3) {
 		case 1:
 			stall = fmt.Sprintf("flip:%d", 40+r.Intn(15))
 		case 2:
 			stall = fmt.Sprintf("every:%d:%d", 3+r.Intn(6), 33+r.Intn(10))
+		case 3:
+			stall = "closed"
 		}
 		syncMode := []string{"immediate", "immediate", "immediate", "batch", "none"}[r.Intn(5)]
 		reopen := 0
